@@ -25,6 +25,7 @@ import (
 	"time"
 
 	"github.com/cloudwego/eino/callbacks"
+	"github.com/cloudwego/eino/components"
 	"github.com/cloudwego/eino/components/tool"
 	"github.com/cloudwego/eino/schema"
 )
@@ -46,6 +47,8 @@ type vcbUnit struct {
 	Src    string   `json:"src"`
 	SrcIn  bool     `json:"srcin"`
 	Pred   string   `json:"pred"`
+	Host   string   `json:"host"`  // the unit runs inside the body of that leaf, under a detached callback scope
+	Fresh  bool     `json:"fresh"` // only global handlers apply to it
 }
 
 type vcbCase struct {
@@ -57,6 +60,9 @@ type vcbCase struct {
 	Split    []int             `json:"split"`
 	NG       int               `json:"ng"`
 	Fail     string            `json:"fail"`
+	BadOpt    string           `json:"badopt"`    // none | t1 | t2 | s1 | s2: the handler list contains an option ("dx") the (sub) graph rejects
+	Reject    string           `json:"reject"`    // nested graph unit whose run is rejected for its options ("" = none)
+	RejectTop bool             `json:"rejecttop"` // the top-level run itself is rejected
 	BSel     string            `json:"bsel"`    // shapes sbr / nsbr: what the branch on START does: node | end | fail | int
 	BStream  bool              `json:"bstream"` // the branch condition is given in its stream form
 	Sched    [][]string        `json:"sched"`
@@ -197,7 +203,7 @@ func (s *vcbSeq) completeL(key string) {
 
 func (s *vcbSeq) siblingsArrivedL(u *vcbUnit) bool {
 	for _, v := range s.units {
-		if v.Parent == u.Parent && v.Pred == "" && !s.arrived[v.U] {
+		if v.Parent == u.Parent && v.Pred == "" && v.Host == "" && !s.arrived[v.U] {
 			return false
 		}
 	}
@@ -276,7 +282,7 @@ func (s *vcbSeq) waitTurn(key string, u *vcbUnit, barrier bool) {
 // a scan of the handler list of unit `name` for a start (class "startR") or end (class "endR") event begins
 func (s *vcbSeq) gate(name, class string) {
 	u, ok := s.byName[name]
-	if !ok || u.Parent == "" {
+	if !ok || u.Parent == "" || u.Host != "" {
 		return
 	}
 	key := u.U + "/" + class
@@ -503,11 +509,25 @@ func (r *vcbRun) newHandler(spec vcbHandlerSpec) callbacks.Handler {
 var errVcbInjected = errors.New("verif injected failure")
 
 // the body of a leaf unit (node body / tool call): gated, logs what it consumed and produced
-func (r *vcbRun) produce(id, in string) (string, error) {
+func (r *vcbRun) produce(ctx context.Context, id, in string) (string, error) {
 	fail := r.c.Fail == id
 	r.seq.bodyEnter(id)
 	r.rec.log("enter", map[string]any{"u": id, "in": in})
 	out := id + "(" + in + ")"
+	// units hosted by this body: a component run under a DETACHED callback scope, the way user code opens one
+	for i := range r.c.Units {
+		h := &r.c.Units[i]
+		if h.Host != id {
+			continue
+		}
+		dctx := callbacks.InitCallbacks(ctx, &callbacks.RunInfo{Name: h.Name, Type: h.Typ, Component: components.Component(h.Comp)})
+		din := "d:" + in
+		dout := h.U + "(" + din + ")"
+		dctx = callbacks.OnStart(dctx, din)
+		r.rec.log("enter", map[string]any{"u": h.U, "in": din})
+		r.rec.log("exit", map[string]any{"u": h.U, "out": dout, "fail": false})
+		callbacks.OnEnd(dctx, dout)
+	}
 	r.seq.bodyLeave(id)
 	r.rec.log("exit", map[string]any{"u": id, "out": out, "fail": fail})
 	if fail {
@@ -530,14 +550,14 @@ func (t *vcbTool) GetType() string { return t.u.Typ }
 
 type vcbInvTool struct{ vcbTool }
 
-func (t *vcbInvTool) InvokableRun(_ context.Context, args string, _ ...tool.Option) (string, error) {
-	return t.r.produce(t.u.U, args)
+func (t *vcbInvTool) InvokableRun(ctx context.Context, args string, _ ...tool.Option) (string, error) {
+	return t.r.produce(ctx, t.u.U, args)
 }
 
 type vcbStrTool struct{ vcbTool }
 
-func (t *vcbStrTool) StreamableRun(_ context.Context, args string, _ ...tool.Option) (*schema.StreamReader[string], error) {
-	out, err := t.r.produce(t.u.U, args)
+func (t *vcbStrTool) StreamableRun(ctx context.Context, args string, _ ...tool.Option) (*schema.StreamReader[string], error) {
+	out, err := t.r.produce(ctx, t.u.U, args)
 	if err != nil {
 		return nil, err
 	}
@@ -618,12 +638,12 @@ func (r *vcbRun) compileToolsShape() (func(opts []Option) (map[string]any, error
 
 func (r *vcbRun) leafLambda(u *vcbUnit) *Lambda {
 	id := u.U
-	produce := func(in string) (string, error) { return r.produce(id, in) }
+	produce := func(ctx context.Context, in string) (string, error) { return r.produce(ctx, id, in) }
 	typ := WithLambdaType(u.Typ)
 	switch r.c.Kinds[id] {
 	case "s":
 		return StreamableLambda(func(ctx context.Context, in string) (*schema.StreamReader[string], error) {
-			out, err := produce(in)
+			out, err := produce(ctx, in)
 			if err != nil {
 				return nil, err
 			}
@@ -644,7 +664,7 @@ func (r *vcbRun) leafLambda(u *vcbUnit) *Lambda {
 				in += x
 			}
 			sr.Close()
-			out, err := produce(in)
+			out, err := produce(ctx, in)
 			if err != nil {
 				return nil, err
 			}
@@ -660,7 +680,7 @@ func (r *vcbRun) leafLambda(u *vcbUnit) *Lambda {
 			return rd, nil
 		}, typ)
 	}
-	return InvokableLambda(func(ctx context.Context, in string) (string, error) { return produce(in) }, typ)
+	return InvokableLambda(func(ctx context.Context, in string) (string, error) { return produce(ctx, in) }, typ)
 }
 
 func vcbIn(xs []string, x string) bool {
@@ -678,7 +698,7 @@ func (r *vcbRun) buildGraph(gid string) (*Graph[string, map[string]any], error) 
 	key := func(u *vcbUnit) string { return u.Path[len(u.Path)-1] }
 	var kids []*vcbUnit
 	for i := range r.c.Units {
-		if r.c.Units[i].Parent == gid {
+		if r.c.Units[i].Parent == gid && r.c.Units[i].Host == "" {
 			kids = append(kids, &r.c.Units[i])
 		}
 	}
@@ -729,7 +749,7 @@ func (r *vcbRun) buildGraph(gid string) (*Graph[string, map[string]any], error) 
 func (r *vcbRun) emitCase() {
 	c := r.c
 	r.rec.log("case", map[string]any{"id": c.ID, "shape": c.Shape, "handlers": c.Handlers, "units": c.Units, "ends": c.Ends,
-		"split": c.Split, "ng": c.NG, "fail": c.Fail, "bsel": c.BSel, "bstream": c.BStream, "sched": c.Sched, "mode": c.Mode,
+		"split": c.Split, "ng": c.NG, "fail": c.Fail, "badopt": c.BadOpt, "reject": c.Reject, "rejecttop": c.RejectTop, "bsel": c.BSel, "bstream": c.BStream, "sched": c.Sched, "mode": c.Mode,
 		"kinds": c.Kinds, "pol": c.Pol, "hb": c.HB})
 }
 
